@@ -35,10 +35,17 @@ if os.path.isdir(sd):
         mp = os.path.join(sd, d, 'meta.json')
         if os.path.exists(mp):
             m = json.load(open(mp))
-            rows.append('| %s | %s | %s | %s |' % (d, m.get('property'), m.get('what', '').replace('|', '/')[:200], m.get('detected_by', '').replace('|', '/')[:200]))
+            runs = m.get('checks_run', [])
+            def fmt(r):
+                sig = ''
+                if r.get('what_failed'): sig = ' (' + str(r['what_failed'][0].get('signature'))[:70] + ')'
+                return '%s: %s%s' % (r['check'], {'failing-input': 'VIOLATION with failing input', 'broken-obligation-only': 'VIOLATION, broken obligation, no-failing-input-found', 'missed': 'not reported'}.get(r['result'], r['result']), sig)
+            rows.append('| %s | %s | %s | %s |' % (d, ', '.join(m.get('files', [])), m.get('what', '').replace('|', '/')[:160],
+                                                 '; '.join(fmt(r) for r in runs).replace('|', '/') or '(not run yet)'))
 out.append('\n### 12.4 Seeded defects (written by independent sub-agents from the property text only) and which checks catch them\n')
 if rows:
-    out.append('| Seed | Property | Change | Caught by |\n|---|---|---|---|')
+    out.append('Each row: the seed was applied to /repo (`git -C /repo apply`), the quick tier of the named checks was run with seed 0, and the patch was undone (`tools/run_seeds.sh`).  "failing input" = the check exhibited a concrete input/history on which the property fails; "broken obligation" = only a proof obligation, translator or model/implementation correspondence broke.\n')
+    out.append('| Seed | File(s) changed | Change | Result of the quick checks |\n|---|---|---|---|')
     out += rows
 else:
     out.append('(matrix not generated yet)')
